@@ -1,6 +1,6 @@
 (* C15/Props.v — property theorems only: each is closed by [exact] of a lemma proved in
    Proofs.v and followed by Print Assumptions. *)
-From Verif Require Import Lib.Bytes C15.Model C15.Proofs C15.PointModel C15.PointProofs.
+From Verif Require Import Lib.Bytes C15.Model C15.Proofs C15.PointModel C15.PointProofs C15.PairModel C15.PairProofs.
 From VerifGen Require Import Consts.
 
 (* No byte stream makes ReadLV panic, and the frame buffer it allocates is always
@@ -120,6 +120,31 @@ Theorem read_stream_fuel_independent :
 Proof. intros trace_ok t f s H. apply read_stream_fuel; [exact H | unfold lt; apply le_n]. Qed.
 Print Assumptions read_stream_fuel_independent.
 
+(* ---------- request/reply pairing on pooled connections (PairModel.v) ---------- *)
+
+(* for EVERY sequence of calls (any mix of the two client pools, any tokens, any scripted
+   replies, any outcome of each call — reply read, timeout, error —, any pool state): if the
+   client keeps the discipline "a connection whose reply was not fully read is never
+   reused", every reply frame a call reads is the reply to that call's own request *)
+Theorem pooled_reply_pairing :
+  forall (cs : list pcall) (st : pools),
+  snd (run st cs) = true -> zip_ok cs (fst (run st cs)).
+Proof. exact run_pairing. Qed.
+Print Assumptions pooled_reply_pairing.
+
+(* without the discipline the pairing fails: after a timed-out request whose connection is
+   kept, the next caller on that connection is handed the previous request's reply *)
+Theorem pooled_reply_pairing_without_discipline_refuted :
+  exists cs : list pcall,
+  snd (run0 cs) = false /\ nth 1 (fst (run0 cs)) None = Some (1, 1) /\ forallb call_ok cs = false.
+Proof. exists leaky_trace. exact leaky_trace_mispairs. Qed.
+Print Assumptions pooled_reply_pairing_without_discipline_refuted.
+
+Example pairing_nonvacuous :
+  let cs := [PC 0 1 1 true false 0 0; PC 0 2 2 true false 2 2; PC 0 3 1 true true 1 0; PC 1 4 3 true false 3 0] in
+  snd (run0 cs) = true /\ fst (run0 cs) = [None; Some (2, 2); Some (3, 1); Some (4, 3)] /\ forallb call_ok cs = true.
+Proof. vm_compute. repeat split; reflexivity. Qed.
+
 (* non-vacuity *)
 Definition example_point : point :=
   mkPoint [99;112;117] (encode_tags [([104;111;115;116], [97]); ([114], [])]) 18446744073709551615 true
@@ -179,7 +204,9 @@ Example malformed_frames_are_errors :
   read_frames_of (fun _ => true) TFloat [0;0;0;2;8;1] = ([], SErr) /\
   read_frames_of (fun _ => true) TFloat [0;0;0;1;255] = ([], SErr) /\
   read_frames_of (fun _ => true) TFloat [0;0;1] = ([], SErr) /\
-  read_frames_of (fun _ => true) TFloat [0;0;0;9;1] = ([], SErr).
+  read_frames_of (fun _ => true) TFloat [0;0;0;9;1] = ([], SErr) /\
+  (* field number 0: "illegal tag 0" *)
+  decode_body TFloat [10;0;18;0;24;0;32;0;0;11] = RErr.
 Proof. vm_compute. repeat split; reflexivity. Qed.
 
 Example tlv_roundtrip_nonvacuous :
